@@ -30,6 +30,8 @@ type Env struct {
 	oldLocals bool // old() keeps resolving locals (call-site clauses: old = state before the call)
 	relL, relR *Env // relational clauses: environments of the two runs
 	loopPre *State // invariants: the state on entry to the loop, for entry(e)
+	prevSt     *State // step clauses: the state at the loop head, for prev(e)
+	lookupPrev func(name string, st *State) (Val, bool)
 }
 
 func (e *Env) with(state *State) *Env {
@@ -797,6 +799,17 @@ func (e *Env) call(x *SExpr) Val {
 			return e.errorf("mapval: values of this map type are not modelled")
 		}
 		return Val{T: types.NewArray(tInt, 0), S: sx("select", e.state.get(val), v.S)}
+	case "prev":
+		// prev(e): value of e at the loop head, i.e. before the iteration a step clause describes
+		if e.prevSt == nil {
+			return e.errorf("prev() is only available in loop step clauses")
+		}
+		pe := e.with(e.prevSt)
+		pe.inOld = true
+		if e.lookupPrev != nil {
+			pe.lookup = e.lookupPrev
+		}
+		return pe.tr(x.Args[0])
 	case "entry":
 		// entry(e): value of e when the loop was entered (only in loop invariants)
 		if e.loopPre == nil {
